@@ -86,6 +86,10 @@ class Capture:
         self.w1 = w1
         self.fail_at = fail_at
         self.deep = deep  # True: the fault is raised by the back-end's solve() *inside* linear_solve
+        # "post": linear solve #fail_at succeeds; the next inner step that evaluates the cost functional
+        # (l1_dissipation, i.e. after the iterate has been advanced) raises once
+        self.post_armed = False
+        self.post_fired = False
         self.linear_calls = []
         self.solve_result = None
         self.swallowed = []
@@ -96,6 +100,11 @@ class Capture:
 
         def linear_solve(matrix, rhs, *a, **k):
             idx = len(cap.linear_calls)
+            if cap.fail_at is not None and idx == cap.fail_at and cap.deep == "post":
+                out = orig_ls(matrix, rhs, *a, **k)
+                cap.linear_calls.append({"index": idx, "raised": False, "depth": "post-armed"})
+                cap.post_armed = True
+                return out
             if cap.fail_at is not None and idx == cap.fail_at:
                 from vf.failpoints import InjectedFault
 
@@ -196,6 +205,18 @@ class Capture:
 
         w1.linear_solve = linear_solve
         w1._solve = _solve
+        orig_l1 = w1.l1_dissipation
+
+        def l1_dissipation(*a, **k):
+            if cap.post_armed and not cap.post_fired:
+                from vf.failpoints import InjectedFault
+
+                cap.post_fired = True
+                raise InjectedFault(f"injected failure of the cost evaluation after linear solve #{cap.fail_at}")
+            return orig_l1(*a, **k)
+
+        if deep == "post":
+            w1.l1_dissipation = l1_dissipation
         # observe the Anderson mixing: amplification |out| / |in| of every application
         self.aa_amplification = 0.0
         self.aa_singular = False  # least-squares matrix singular relative to the increment
